@@ -101,6 +101,7 @@ from pyvc.contract import is_key_prefix, some_key_is_prefix_of, longest_key_pref
 
 SPACE = "\t\n\x0c \r"
 ALNUM = "abcdefghijklmnopqrstuvwxyzABCDEFGHIJKLMNOPQRSTUVWXYZ0123456789"
+ALNUM_SET = frozenset(ALNUM)
 
 
 def ent_havoc(S, L):
@@ -169,14 +170,14 @@ class ConsumeEntity:
         # (2) the scan is maximal: every proper prefix can still become a name; the next character cannot extend it
         if not (scanned == "" or is_key_prefix(scanned)):
             return False
-        if not (rest == "" or not is_key_prefix(scanned + rest[0])):
+        if not (rest == "" or not is_key_prefix(scanned + rest[:1])):
             return False
         # (3) decoding: the longest name inside the scanned text, with the attribute-value exception
         if not some_key_is_prefix_of(scanned):
             return final.output == "&" + scanned
         name = longest_key_prefix(scanned)
         after = (scanned + rest)[len(name):]
-        if name[-1] != ";" and fromAttribute and after != "" and (after[0] in ALNUM or after[0] == "="):
+        if name[-1] != ";" and fromAttribute and (after[:1] in ALNUM_SET or after[:1] == "="):
             return final.output == "&" + scanned
         return final.output == ENTITIES[name] + scanned[len(name):]
 
